@@ -10,6 +10,7 @@ def run(chk):
     chk.assume("G: queue.Queue is a linearizable FIFO; a `with lock:` block and a single Event/Queue call are atomic")
     batcher.check_consumer(chk, "C06")
     state_contracts.create_checkpoint(chk, "C06", want=("C06",))
+    state_contracts.completion_event_contract(chk, "C06")
     for kind in ("step", "child", "wfc", "wait", "invoke", "callback"):
         ex = explore(kind)
         handler_preamble(chk, ex, FUNCS[kind])
